@@ -8,7 +8,7 @@ From GMS Require Import Sys.C44SysVarsBase gen.C44Vars Sys.C44SysVars Sys.C44Sys
 Open Scope Z_scope.
 
 (* every constant default of the generated registry is a valid value of its variable and converts to itself
-   (as a number: some defaults are Go int / int64 where Convert yields int64 / uint64, see _exact_type_refuted);
+   (as a number: some defaults are Go int / int64 where Convert yields int64 / uint64, see _exact_type_fact);
    bound: the 332 entries with a constant default and a modelled type, minus the one refuted below *)
 Theorem C44_defaults_valid_partial :
   forall sv, In sv vars -> checkable sv = true -> ~ In (v_name sv) default_known_bad ->
@@ -16,17 +16,18 @@ Theorem C44_defaults_valid_partial :
 Proof. exact defaults_valid. Qed.
 Print Assumptions C44_defaults_valid_partial.
 
-(* ft_max_word_len: default 0, range [10, 2^63-1] *)
-Theorem C44_defaults_valid_refuted :
+(* a fact about the registry, not a refutation of the property (which makes no demand on defaults):
+   ft_max_word_len has default 0 and range [10, 2^63-1] *)
+Theorem C44_default_outside_range_fact :
   exists sv, In sv vars /\ checkable sv = true /\ convert (v_type sv) (v_default sv) = Err.
 Proof. exact defaults_refuted. Qed.
-Print Assumptions C44_defaults_valid_refuted.
+Print Assumptions C44_default_outside_range_fact.
 
-Theorem C44_defaults_exact_type_refuted :
+Theorem C44_defaults_exact_type_fact :
   exists sv d, In sv vars /\ convert (v_type sv) (v_default sv) = Ok d /\ d <> v_default sv /\
                gval_same_value d (v_default sv) = true.
 Proof. exact defaults_exact_type_refuted. Qed.
-Print Assumptions C44_defaults_exact_type_refuted.
+Print Assumptions C44_defaults_exact_type_fact.
 
 (* keys unique and equal to the Name field, bounds inside int64 / uint64, no enum with two names differing only in
    case, every enum name converts to itself *)
@@ -54,7 +55,7 @@ Proof. exact conv_uint_exact. Qed.
 Print Assumptions C44_uint_validation_exact.
 
 (* ... and not beyond: -1 is accepted by an unsigned variable as 2^64-1, 2^64-1 by a signed one as -1, and a
-   decimal loses its sign / is rounded on the unsigned path *)
+   decimal loses its sign on the unsigned path *)
 Theorem C44_uint_rejects_negative_refuted :
   exists sv, lookup vars "group_concat_max_len" = Some sv /\
     convert (v_type sv) (GI KInt8 (-1)) = Ok (GI KUint64 18446744073709551615).
@@ -67,11 +68,24 @@ Theorem C44_int_rejects_above_int64_refuted :
 Proof. exact int_wraps_uint64. Qed.
 Print Assumptions C44_int_rejects_above_int64_refuted.
 
-Theorem C44_uint_rejects_bad_decimal_refuted :
+Theorem C44_uint_rejects_negative_decimal_refuted :
   exists sv, lookup vars "group_concat_max_len" = Some sv /\
-    convert (v_type sv) (GD (-5) 1) = Ok (GI KUint64 5) /\ convert (v_type sv) (GD 9 2) = Ok (GI KUint64 5).
+    convert (v_type sv) (GD (-5) 1) = Ok (GI KUint64 5).
 Proof. exact uint_decimal_sign_dropped. Qed.
-Print Assumptions C44_uint_rejects_bad_decimal_refuted.
+Print Assumptions C44_uint_rejects_negative_decimal_refuted.
+
+(* facts, not refutations: the unsigned type rounds a fractional decimal half up (4.5 -> 5), the signed type rejects
+   every fractional float / decimal whatever its bounds (2.5, 7/2, 100.4 are rejected without effect) *)
+Theorem C44_uint_rounds_fractional_decimal_fact :
+  exists sv, lookup vars "group_concat_max_len" = Some sv /\
+    convert (v_type sv) (GD 9 2) = Ok (GI KUint64 5).
+Proof. exact uint_decimal_rounded. Qed.
+Print Assumptions C44_uint_rounds_fractional_decimal_fact.
+
+Theorem C44_int_rejects_fraction : forall lo hi n1 n d, Z.rem n (Zpos d) <> 0 ->
+  convert (TInt lo hi n1) (GF n d) = Err /\ convert (TInt lo hi n1) (GD n d) = Err.
+Proof. exact conv_int_rejects_fraction. Qed.
+Print Assumptions C44_int_rejects_fraction.
 
 (* Convert is the identity on values of the type: re-assigning what was read changes nothing *)
 Theorem C44_convert_idempotent : forall t v,
